@@ -21,6 +21,7 @@ EXPLANATION = (
 EXPLANATION_ADDED = '(R5) S5/S6: no lock re-entrancy over guard live regions and the in-crate call graph, no blocking guard live across an await; (R6) the per-stream inbound queue is sized from the local rwnd.'
 EXPLANATION_ADDED2 = ' (R7) ack-failure-stops-handoff.'
 EXPLANATION = EXPLANATION + " Added while testing against seeded changes: " + EXPLANATION_ADDED + EXPLANATION_ADDED2
+EXPLANATION = EXPLANATION + ' Rounds 14-15: (R8) no successful return of the message dispatcher is reachable from the failure edge of the frame decoder.'
 ASSUMPTIONS = ["combinator calls (Option::and_then/map) invoke in-crate closures at most once (treated as may-effects)",
                "error-propagation paths (`?`) produce prefixes of the full reaction; the maximal effect set per cell is compared"]
 NOT_DECIDED = "general panic-freedom of the dispatcher; behaviour over sequences of frames beyond the per-frame, per-state table"
